@@ -432,6 +432,7 @@ class Repo(object):
             objflat.unalias_memoised(tree)
             objflat.unwrap_memo_functions(tree)
             objflat.inline_category_constants(tree)
+            objflat.specialise_walkers(tree, lambda name, tree=tree, rel=rel: self._generator_named(tree, rel, name))
             objflat.unfold_tree_folds(tree, lambda name, tree=tree, rel=rel: self._generator_named(tree, rel, name))
             objflat.unmap_structural(tree, lambda name, tree=tree, rel=rel: self._generator_named(tree, rel, name))
             objflat.inline_bases(tree, lambda name, tree=tree, rel=rel: self._class_named(tree, rel, name))
